@@ -229,15 +229,19 @@ def gen_purity_world(rw, rv, knobs):
                 objs.append(R.add("mp", gen_mapper_spec(rw, rv, m0, (h, w), ps, adapt, profile)))
             else:
                 cols = rw.randrange(1, 3)
-                objs.append(R.add("fl", {"kind": "func_list", "mask": ref(m0), "columns": cols, "matrix": hx(rv, n0 * cols, "positive"), "reg": None}))
+                objs.append(R.add("fl", {"kind": "func_list", "mask": ref(m0), "columns": cols, "matrix": hx(rv, n0 * cols, "positive"), "reg": None, "override": hx(rv, n0 * cols, "positive") if rw.random() < 0.35 else None}))
         rw.shuffle(objs)
         settings = None
         if rw.random() < 0.6:
             kw = {"use_w_tilde": rw.random() < 0.5}
-            if rw.random() < 0.3:
-                kw["use_positive_only_solver"] = rw.random() < 0.5
-            if rw.random() < 0.2:
+            if rw.random() < 0.4:
+                kw["use_positive_only_solver"] = rw.random() < 0.6
+            if rw.random() < 0.4:
                 kw["force_edge_pixels_to_zeros"] = False
+            if rw.random() < 0.2:
+                kw["positive_only_uses_p_initial"] = rw.random() < 0.7
+            if rw.random() < 0.15:
+                kw["force_edge_image_pixels_to_zeros"] = True
             settings = R.add("st", {"kind": "settings", "kw": kw})
         inv = R.add("inv", {"kind": "inversion", "dataset": ref(ds_masked), "objs": [ref(o) for o in objs], "settings": ref(settings) if settings else None, "profile": profile})
         if rw.random() < 0.6:
@@ -407,7 +411,7 @@ def gen_preloads_world(rw, rv, knobs):
             obj_specs.append(("mp", s))
         else:
             cols = rw.randrange(1, 3)
-            obj_specs.append(("fl", {"kind": "func_list", "mask": ref(m0), "columns": cols, "matrix": hx(rv, n0 * cols, "positive"), "reg": None}))
+            obj_specs.append(("fl", {"kind": "func_list", "mask": ref(m0), "columns": cols, "matrix": hx(rv, n0 * cols, "positive"), "reg": None, "override": hx(rv, n0 * cols, "positive") if rw.random() < 0.35 else None}))
     if not any(p == "mp" for p, _ in obj_specs) and rw.random() < 0.7:
         s = gen_mapper_spec(rw, rv, m0, (h, w), ps, adapt, False)
         s["sub_size"] = sub
@@ -420,6 +424,10 @@ def gen_preloads_world(rw, rv, knobs):
     solver = {}
     if rw.random() < 0.5:
         solver["use_positive_only_solver"] = rw.random() < 0.5
+    if rw.random() < 0.3:
+        solver["force_edge_pixels_to_zeros"] = False
+    if rw.random() < 0.15:
+        solver["positive_only_uses_p_initial"] = rw.random() < 0.5
     st_w = R.add("st", {"kind": "settings", "kw": dict(solver, use_w_tilde=True)})
     st_m = R.add("st", {"kind": "settings", "kw": dict(solver, use_w_tilde=False)})
 
